@@ -13,6 +13,7 @@ import time
 from concurrent.futures import ThreadPoolExecutor
 
 from vlib import BUILD, Infra, build, log, next_replay_path, open_findings, run, scratch, tla_set, tlc, tlc_ok, write_evidence
+import check_chan
 import check_prog
 
 ALL = ("CtxPrompt NoStrandedCall NoLockWedge NoResidue FifoPerConn NoDoubleStart OneUnreleased AtMostOneResponse "
@@ -42,12 +43,19 @@ CFG = {
     # a streaming call whose reply channel is filled by other nodes of its configuration while it is still
     # handing its request to this node (EnqueueBlocksOnOwnReplyChannel), with Close
     "stream-foreign": ("{1, 2}", "stream", "two", "two", 0, 1, "TRUE", "{1}", 2, ALL, 1, "TRUE"),
+    # quick tier: one cancellable request, either crash or Close
+    "q-two-two-crash": ("{1, 2}", "two", "two", "two", 0, 1, "FALSE", "{1}", 3, ALL, 1),
+    "q-two-two-close": ("{1, 2}", "two", "two", "two", 0, 1, "TRUE", "{1}", 2, ALL, 0),
+    "q-two-sw-w0": ("{1, 2}", "two", "sw", "two", 1, 0, "TRUE", "{2}", 2, W0, 0),
+    "q-stream-two": ("{1, 2}", "stream", "two", "two", 0, 1, "FALSE", "{1}", 2, ALL, 1),
+    "q-sw-nsw-b1": ("{1, 2}", "sw", "nsw", "two", 1, 1, "TRUE", "{1}", 2, ALL, 0),
     # the same without crash and Close (quick tier)
     "stream-foreign-q": ("{1, 2}", "stream", "two", "two", 0, 1, "FALSE", "{1}", 2, ALL, 0, "TRUE"),
 }
 DESIGN = {
-    "quick": {"C08": ["two-sw-w0", "two-two-b0-noclose"], "C09": ["two-two-b0-noclose", "stream-two-e2", "three-two-nocrash", "stream-foreign-q"],
-              "C10": ["two-two-b0-noclose", "sw-nsw-b1"], "C12": ["two-two-b0-e2", "sw-nsw-b1"]},
+    "quick": {"C08": ["q-two-sw-w0", "q-two-two-crash", "q-sw-nsw-b1"],
+              "C09": ["q-two-two-crash", "q-stream-two", "three-two-nocrash", "stream-foreign-q"],
+              "C10": ["q-two-two-crash", "q-sw-nsw-b1"], "C12": ["q-two-two-close", "q-sw-nsw-b1"]},
     "thorough": {"C08": ["two-sw-w0", "two-two-w0", "nsw-two-w0", "two-two-b1", "three-b0"],
                  "C09": ["two-two-b0", "stream-two-b0", "stream-stream-b1", "three-b0", "three-two-nocrash", "stream-foreign"],
                  "C10": ["two-two-b0", "two-two-b1", "three-b0"],
@@ -90,11 +98,13 @@ def validate_life(trace, work):
     return bad, gen, lines
 
 
-def run_life(prop, out, stats, only=None, reps=1, quiet=1500):
+def run_life(prop, out, stats, only=None, reps=1, quiet=1500, allout=None):
     cmd = [os.path.join(BUILD, "drive"), "life", "-prop", prop, "-out", out, "-stats", stats, "-reps", str(reps),
            "-quiet", str(quiet)]
     if only:
         cmd += ["-only", only]
+    if allout:
+        cmd += ["-allout", allout]
     p = run(cmd, timeout=3000, check=False)
     if p.returncode != 0:
         raise Infra("driver failed:\n" + p.stdout[-3000:])
@@ -110,6 +120,16 @@ def check(prop, tier, seed, replay):
         devs = sorted(k["key"] for k in opens)
         if replay:
             rp = json.load(open(replay))
+            if rp.get("chan"):
+                t1, a1 = os.path.join(work, "re.ndjson"), os.path.join(work, "re-all.ndjson")
+                for _ in range(2):
+                    run_life(prop, t1, os.path.join(work, "re.json"), only=rp["scenario"], allout=a1)
+                    _, r1, _, _ = check_chan.validate_file(a1, work, par=1)
+                    if r1:
+                        log("VIOLATION property=%s replay=%s" % (prop, replay))
+                        return 1
+                log("replay accepted")
+                return 0
             if rp.get("scenario") == "m3":
                 if check_prog.m3_replay(prop, rp, work, (6, 6, 40)):
                     log("VIOLATION property=%s replay=%s" % (prop, replay))
@@ -144,7 +164,8 @@ def check(prop, tier, seed, replay):
                     (name, gen, dist, OWN[prop]))
         # 2. scripted scenarios on the real library
         trace = os.path.join(work, "life.ndjson")
-        log(run_life(prop, trace, os.path.join(work, "st.json"), reps=REPS[tier]))
+        allout = os.path.join(work, "life-all.ndjson")
+        log(run_life(prop, trace, os.path.join(work, "st.json"), reps=REPS[tier], allout=allout))
         bad, tstates, lines = validate_life(trace, work)
         nscen = sum(1 for x in lines if '"ev":"Scen"' in x)
         infeasible = [json.loads(x) for x in lines if '"ev":"Scen"' in x and json.loads(x).get("infeasible")]
@@ -192,6 +213,31 @@ def check(prop, tier, seed, replay):
         if still and not reported:
             raise Infra("infeasible scenarios: " + "; ".join("%s:%s %s" % (h["name"], h["kind"], h["infeasible"])
                                                             for h in still[:5]))
+        # 2b. the same executions, every transport event, against Channel.tla action by action (ChannelTrace.tla)
+        cacc, crej, cskip, cstates = check_chan.validate_file(allout, work)
+        tstates += cstates
+        chan_unconfirmed = 0
+        for hdr, line, why, clines in crej:
+            only = "%s:%s" % (hdr.get("name"), hdr.get("kind"))
+            # an event order produced by two goroutines logging concurrently must not become a verdict: reproduce
+            hits = 0
+            for _ in range(2):
+                t1, a1 = os.path.join(work, "re.ndjson"), os.path.join(work, "re-all.ndjson")
+                run_life(prop, t1, os.path.join(work, "re.json"), only=only, allout=a1)
+                _, r1, _, _ = check_chan.validate_file(a1, work, par=1)
+                hits += 1 if r1 else 0
+            if hits == 0:
+                log("UNCONFIRMED (not a verdict): transport-level rejection of scenario %s (line %d: %s) did not reproduce"
+                    % (only, line, why))
+                chan_unconfirmed += 1
+                continue
+            if len(reported) < 3:
+                path = next_replay_path(prop)
+                json.dump({"property": prop, "scenario": only, "chan": True, "line": line, "reason": why,
+                           "trace": clines[:line + 1]}, open(path, "w"), indent=1)
+                reported.append(path)
+        log("transport level (ChannelTrace): %d scenario traces accepted, %d rejected, %d not projected" %
+            (cacc, len(crej), len(cskip)))
         # 3. free workloads with cancellations at arbitrary instants
         m3calls = 0
         if prop in M3[tier]:
@@ -220,7 +266,10 @@ def check(prop, tier, seed, replay):
                        "restart at random (every call must return, the tables must be empty at the end, and a final "
                        "all-node quorum call must succeed)" % (prop, REPS[tier], m3calls, m3fcalls),
                "samples": samples, "design_level": design, "deviations_enabled": devs, "trace_states": tstates,
-               "m3_calls": m3calls, "m3_fault_calls": m3fcalls, "unconfirmed_rejections": unconfirmed}
+               "m3_calls": m3calls, "m3_fault_calls": m3fcalls,
+               "transport_level": {"accepted": cacc, "rejected": len(crej), "not_projected": len(cskip),
+                                   "unconfirmed": chan_unconfirmed},
+               "unconfirmed_rejections": unconfirmed}
         write_evidence(prop, tier, seed, "model_checking", cov, time.time() - t0, len(reported),
                        ["liveness is read as safety over quiescent states: no library step enabled (model) / no library "
                         "event for the quiescence period (real runs); every gorums timer in the scenarios is far below "
